@@ -189,6 +189,29 @@ def noOverlapOk (P : Nat → Pt α) : List Tri → Bool
 
 end Check
 
+/-! ### executable forms of the two geometric hypotheses `FanPositive` / `FanEmpty` of Props/C20
+    (evaluated by the driver, in exact arithmetic, on the states the MODEL passes through for a given input) -/
+section FanCheck
+variable {α : Type} [Add α] [Sub α] [Mul α] [Zero α] [LT α] [DecidableLT α]
+
+/-- the state after the first `k` insertions (enumeration order `id`) -/
+def stateAtE (P : Nat → Pt α) (n k : Nat) : List Tri :=
+  (List.range k).foldl (step P id) [(n, n + 1, n + 2)]
+
+/-- the inserted point is strictly on the inner side of every directed boundary edge of its cavity -/
+def fanPositiveOk (P : Nat → Pt α) (n : Nat) : Bool :=
+  (List.range n).all fun k =>
+    (polygon ((stateAtE P n k).filter (fun t => insideCirc P t (P k)))).all fun e =>
+      (e.1 == k || e.2 == k) || decide (orient (P e.1) (P e.2) (P k) < 0)
+
+/-- no new fan triangle has an earlier point strictly inside its circumcircle -/
+def fanEmptyOk (P : Nat → Pt α) (n : Nat) : Bool :=
+  (List.range n).all fun k =>
+    (polygon ((stateAtE P n k).filter (fun t => insideCirc P t (P k)))).all fun e =>
+      (e.1 == k || e.2 == k) || (List.range k).all fun j => !insideCirc P (fanTri P e k) (P j)
+
+end FanCheck
+
 /-- output vertices are exactly the input points at `(x, 0, y)`; run on raw bit patterns -/
 def verticesOk {α : Type} [Zero α] [BEq α] (pts : List (Pt α)) (out : List (α × α × α)) : Bool :=
   out == bwVertices pts
